@@ -344,6 +344,23 @@ def str_eq(a, b):
         return ca == cb
     # split into comparable atoms: characters for str, whole part for symbolic parts
     pa, pb = _atoms(a), _atoms(b)
+    # identical atoms at both ends cancel (terms are hash-consed: identity is structural equality); what is left decides
+    def _same(x, y):
+        if isinstance(x, str) or isinstance(y, str):
+            return isinstance(x, str) and isinstance(y, str) and x == y
+        return x[0] == y[0] and x[1] is y[1] and x[2:] == y[2:]
+    while pa and pb and _same(pa[0], pb[0]):
+        pa, pb = pa[1:], pb[1:]
+    while pa and pb and _same(pa[-1], pb[-1]):
+        pa, pb = pa[:-1], pb[:-1]
+    if not pa and not pb:
+        return True
+    _one = lambda x: isinstance(x, str) or x[0] in ("bit", "hexd", "chr")
+    _nonempty = lambda x: isinstance(x, str) or x[0] != "opaque"
+    if (not pa and any(_nonempty(x) for x in pb)) or (not pb and any(_nonempty(x) for x in pa)):
+        return False          # one side has text left, the other none
+    if len(pa) != len(pb) and all(_one(x) for x in pa) and all(_one(x) for x in pb):
+        return False          # different known lengths
     if len(pa) != len(pb):
         # lengths may still coincide for unknown-length parts; not decidable structurally
         if a.chars() is not None and b.chars() is not None:
